@@ -6,6 +6,7 @@ CONSTANTS
   SiteOps = {"eq", "le", "ge", "in", "dict", "none"}
   ChildOps = {"deq", "dle"}
   WrongOps = {"eq", "in"}
+  ChgOK = TRUE
   NSites = 1
   NTests = 1
   MaxStmts = 2
